@@ -24,6 +24,8 @@ pub struct SItem {
 pub struct SAlt {
     pub items: Vec<SItem>,
     pub meta: Meta,
+    /// `EMPTY` written among the items (contributes nothing): position 0..=items.len(), form 0 `EMPTY`, 1 `eN=EMPTY`, 2 `eN?=EMPTY`
+    pub empties: Vec<(usize, u8)>,
 }
 
 #[derive(Clone, Debug)]
@@ -62,10 +64,15 @@ impl SG {
                     let body = if a.items.is_empty() {
                         "EMPTY".to_string()
                     } else {
-                        a.items
+                        let empty_at = |pos: usize| -> String {
+                            a.empties.iter().enumerate().filter(|(_, e)| e.0 == pos).map(|(k, e)| match e.1 { 0 => "EMPTY ".to_string(), 1 => format!("e{}=EMPTY ", k), _ => format!("e{}?=EMPTY ", k) }).collect()
+                        };
+                        let tail = empty_at(a.items.len());
+                        let mut body: String = a.items
                             .iter()
-                            .map(|it| {
-                                let mut x = String::new();
+                            .enumerate()
+                            .map(|(pos, it)| {
+                                let mut x = empty_at(pos);
                                 if let Some((n, b)) = &it.assign {
                                     x.push_str(n);
                                     x.push_str(if *b { "?=" } else { "=" });
@@ -89,7 +96,12 @@ impl SG {
                                 x
                             })
                             .collect::<Vec<_>>()
-                            .join(" ")
+                            .join(" ");
+                        if !tail.is_empty() {
+                            body.push(' ');
+                            body.push_str(tail.trim_end());
+                        }
+                        body
                     };
                     format!("{}{}", body, a.meta.text())
                 })
@@ -176,7 +188,7 @@ impl SG {
         let meta = |m: &Meta| json!({"prio": m.prio, "assoc": m.assoc.map(|a| a.kw()), "nops": m.nops, "nopse": m.nopse, "kind": m.kind, "user": m.user});
         json!({
             "terms": self.terms.iter().map(|t| json!({"name": t.name, "lit": lit(t), "meta": meta(&t.meta)})).collect::<Vec<_>>(),
-            "rules": self.rules.iter().map(|r| json!({"name": r.name, "vec": r.vec_annotation, "meta": meta(&r.meta), "alts": r.alts.iter().map(|a| json!({"meta": meta(&a.meta),
+            "rules": self.rules.iter().map(|r| json!({"name": r.name, "vec": r.vec_annotation, "meta": meta(&r.meta), "alts": r.alts.iter().map(|a| json!({"meta": meta(&a.meta), "empties": a.empties,
                 "items": a.items.iter().map(|it| json!({"t": if let Sym::T(t) = it.sym { Some(t) } else { None }, "n": if let Sym::N(n) = it.sym { Some(n) } else { None },
                     "inline": it.inline, "assign": it.assign.as_ref().map(|(n, b)| json!([n, b])), "rep": it.rep.map(|(o, s)| json!([o.to_string(), s]))})).collect::<Vec<_>>()})).collect::<Vec<_>>()})).collect::<Vec<_>>(),
         })
@@ -203,6 +215,7 @@ impl SG {
                         .iter()
                         .map(|a| SAlt {
                             meta: meta(&a["meta"]),
+                            empties: a["empties"].as_array().map(|v| v.iter().map(|e| (e[0].as_u64().unwrap() as usize, e[1].as_u64().unwrap() as u8)).collect()).unwrap_or_default(),
                             items: a["items"]
                                 .as_array()
                                 .unwrap()
@@ -320,7 +333,14 @@ pub fn gen_sg(rng: &mut Rng) -> SG {
                     kinds_used.push(k.clone());
                 }
             }
-            alts.push(SAlt { items, meta });
+            let mut empties = vec![];
+            if !items.is_empty() && rng.chance(0.1) {
+                for _ in 0..rng.range(1, 2) {
+                    empties.push((rng.below(items.len() + 1), rng.below(3) as u8));
+                }
+                empties.sort();
+            }
+            alts.push(SAlt { items, meta, empties });
         }
         rules.push(SRule { name: NNAMES[i].to_string(), vec_annotation: false, meta: if rng.chance(0.4) { rand_meta(rng, 0) } else { Meta::default() }, alts });
     }
